@@ -19,6 +19,7 @@ RING_DEL = CORE + "consensus::blockring::BlockRing::delete_block"
 def run(prog, tier, extra=None):
     res = Result("C04", "other")
     R1 = res.rule("C04.undo", "every FailedNotValid exit after an insertion passes the undo", floor=2)
+    R3 = res.rule("C04.undo-touches-ledger", "the undo of a rejected block reaches no UtxoSet mutator", floor=2)
     R2 = res.rule("C04.undo-complete", "the undo removes the block from Blockchain.blocks and from the block ring", floor=2)
     ab = prog.body(BC + "add_block::{closure#0}")
     if ab is None:
@@ -36,7 +37,10 @@ def run(prog, tier, extra=None):
 
     def reaches(p, targets):
         return bool(cg.reachable_from([p], kinds=("call", "await")) & targets)
-    undo_bodies = {p for p in cg.bodies if reaches(p, removes) and reaches(p, ringdel)}
+    # an undo body removes the block from Blockchain.blocks and from the ring itself (not through callees: the
+    # reorganisation machinery also reaches the purge of old blocks, which is not an undo of this insertion)
+    direct = removes & ringdel
+    undo_bodies = set(direct) | {p[: -len("::{closure#0}")] for p in direct if p.endswith("::{closure#0}")}
     undo_blocks = set()
     for bb, t in ab.calls():
         tgt = t.get("res") or t.get("callee")
@@ -73,6 +77,20 @@ def run(prog, tier, extra=None):
         tgt = t.get("res") or t.get("callee")
         res.instance(R2)
         res.sample({"rule": R2, "undo": tgt.replace(CORE, ""), "removes_from_blocks": reaches(tgt, removes), "deletes_from_ring": reaches(tgt, ringdel)})
+    # R3: undoing a rejected block touches no ledger state: the block was never wound, so the undo path must not reach
+    # anything that mutates a UtxoSet (Slip::on_chain_reorganization / Slip::delete)
+    LEDGER = {CORE + "consensus::slip::Slip::on_chain_reorganization", CORE + "consensus::slip::Slip::delete"}
+    for bb in sorted(undo_blocks):
+        tgt = ab.term(bb).get("res") or ab.term(bb).get("callee")
+        res.instance(R3)
+        hit = cg.reachable_from([tgt], kinds=("call", "await", "creates")) & LEDGER
+        if hit:
+            path = cg.shortest_path(tgt, lambda q: q in LEDGER, kinds=("call", "await", "creates"))
+            res.add(Finding(R3, "C04.undo-touches-ledger|%s" % tgt, "the undo of a rejected block (%s) reaches %s: it changes the spendable set although the block was never applied"
+                            % (tgt.replace(CORE, ""), sorted(x.split("::")[-2] + "::" + x.split("::")[-1] for x in hit)), ab.loc(bb),
+                            {"call_path": [e.dst.replace(CORE, "") for e in (path or [])]}))
+        else:
+            res.sample({"rule": R3, "undo": tgt.replace(CORE, ""), "verdict": "reaches no UtxoSet mutator"})
     if len(inserts) < 2:
         res.add(Finding(R1, "C04.undo|anchors", "expected both insertions (block ring and Blockchain.blocks) in add_block, found %d" % len(inserts), ab.loc(0)))
     res.explanation = (
